@@ -5,7 +5,8 @@
    coordinates are rationals (every binary64 is one). *)
 From Coq Require Import List Arith Bool ZArith QArith.
 Import ListNotations.
-Require Import Model.C12_Refine Model.C12_Geom Proofs.C12_RefineProofs Proofs.C12_GeomProofs Proofs.C12_BoundaryProofs.
+Require Import Model.C12_Refine Model.C12_Geom Model.C13_Adaptive.
+Require Import Proofs.C12_RefineProofs Proofs.C12_GeomProofs Proofs.C12_BoundaryProofs Proofs.C13_AdaptiveProofs.
 Require Import Gen.C12Gen Dyn.C12Tie.
 Local Open Scope nat_scope.
 
@@ -278,6 +279,20 @@ Proof.
   exact (tri_children_sorted (offs_of tri_spec p tb) (cell_ctx tb k) v0 v1 v2 f0 f1 f2 (asg_c st) Hv Hf H1 H2 H3 H4 H5 Hc).
 Qed.
 Print Assumptions C12_tri_boundary_children_sort_t.
+
+(* no_hanging_nodes (2-D, trace level): inside every parent the children form a conforming patch whose trace on each
+   parent facet consists of the two halves of that facet, cut at the facet's own node; the two halves depend on the
+   facet alone (its end points and its index), hence the two neighbours of a facet agree *)
+Theorem C12_no_hanging_nodes_2d :
+  trace_ok gen_tri_rfacets [true; true; true] gen_tri_templates = true /\
+  trace_ok gen_quad_rfacets [true; true; true; true] gen_quad_templates = true /\
+  forall rf F nv facets c a,
+    let f := nth a (cf c) 0 in let lf := nth a rf [] in
+    (nth (nth 0 lf 0) (cv c) 0 = nth 0 (nth f facets []) 0 /\ nth (nth 1 lf 0) (cv c) 0 = nth 1 (nth f facets []) 0) \/
+    (nth (nth 0 lf 0) (cv c) 0 = nth 1 (nth f facets []) 0 /\ nth (nth 1 lf 0) (cv c) 0 = nth 0 (nth f facets []) 0) ->
+    forall e, In e (resolved_pieces rf F nv c a) <-> In e (facet_trace F nv facets f).
+Proof. split; [exact tri_trace_ok | split; [exact quad_trace_ok | exact traces_agree]]. Qed.
+Print Assumptions C12_no_hanging_nodes_2d.
 
 (* non-vacuity: the unit square of two triangles, refined by the model *)
 Example C12_instance :
